@@ -379,6 +379,118 @@ def size_form_by_evaluation(ctx, f):
     return 'unknown:%r' % (t,)
 
 
+def kinds_sized_apart(ctx, report, RULE, c, prm, gis):
+    """``get_item_size`` that tells kinds of item apart (``isinstance(item, K)``) is decided kind by kind: for every repository
+    class K it names, the composer layout of K gives the encoded size as a function of the lengths of its variable parts (fixed
+    integers by width, raw bytes by their length, nested values by the length of their composition); the method is evaluated on a
+    model item of kind K for two choices of those lengths and has to return that size.  Returns the number of probes evaluated."""
+    from ..miniexec import Evaluator, Native, Obj, Raised, Unsupported, class_call_hook
+    from ..values import SelfV
+    model = ctx.model
+    kinds = []
+    for k in [x for x in gis.cls.mro if isinstance(x, ClassInfo)]:
+        g = k.methods.get('get_item_size')
+        if g is None:
+            continue
+        for n in ast.walk(g.node):
+            if isinstance(n, ast.Call) and isinstance(n.func, ast.Name) and n.func.id == 'isinstance' and len(n.args) == 2:
+                for t in (n.args[1].elts if isinstance(n.args[1], (ast.Tuple, ast.List)) else [n.args[1]]):
+                    kc = model.try_cls(ast.unparse(t).split('.')[-1])
+                    if kc is not None and not kc.external and model.is_parsable(kc) and kc not in kinds:
+                        kinds.append(kc)
+    runs = 0
+    for kc in kinds:
+        try:
+            cc = ctx.canon.canon(kc, 'compose')
+        except Exception:      # pylint: disable=broad-except
+            cc = None
+        if cc is None or not cc.elements:
+            continue
+        chain = {x.name for x in kc.mro if hasattr(x, 'name')}
+        for length in (5, 300):
+            attrs, size, ok = {}, 0, True
+            for e in cc.elements:
+                path = e.val.path if isinstance(e.val, SelfV) else None
+                name = path[0] if path and len(path) == 1 and isinstance(path[0], str) else None
+                if e.kind == 'u':
+                    size += e.w
+                elif e.kind == 'raw' and name:
+                    attrs[name] = b'\x01' * length
+                    size += length
+                elif e.kind == 'nested' and name and e.cls is not None:
+                    k2 = e.cls if isinstance(e.cls, ClassInfo) else model.try_cls(str(e.cls))
+                    if k2 is None:
+                        ok = False
+                        break
+                    if k2.is_subclass_of('ArrayBase'):
+                        p2 = ctx.interp.const_call(k2, 'get_param')
+                        pre = p2.attrs.get('item_num_size') if isinstance(p2, ObjV) else None
+                        if not isinstance(pre, int):
+                            ok = False
+                            break
+
+                        class Inner(Native):
+                            def __init__(self, n, pre):
+                                self.n, self.param, self._items = n, Obj(item_num_size=pre, item_size=1), [0] * n
+
+                            def __len__(self):
+                                return self.n
+
+                            def compose(self):
+                                return b'\x00' * (self.param.item_num_size + self.n)
+                        attrs[name] = Inner(length, pre)
+                        size += pre + length
+                    else:
+                        from .c19 import class_min_size
+                        w = class_min_size(k2, ctx.canon)
+
+                        class Fixed(Native):
+                            def __init__(self, w):
+                                self.w = w
+
+                            def compose(self):
+                                return b'\x00' * self.w
+                        attrs[name] = Fixed(w)
+                        size += w
+                else:
+                    ok = False
+                    break
+            if not ok:
+                break
+
+            class Item(Native):
+                _isa = chain
+
+                def __init__(self, attrs, size):
+                    self.__dict__.update(attrs)
+                    self._size = size
+
+                def compose(self):
+                    return b'\x00' * self._size
+
+            class Param(Native):
+                _repo_class = gis.cls
+
+                def __init__(self):
+                    for k_, v_ in (prm.attrs or {}).items():
+                        if isinstance(v_, (int, str, bytes, type(None))):
+                            setattr(self, k_, v_)
+            hook = class_call_hook(gis.cls, None, model)
+            params = [a.arg for a in gis.node.args.args if a.arg != 'self']
+            try:
+                got = Evaluator({'self': Param(), params[0]: Item(attrs, size)}, hook, hook.name_hook_for(gis.module, None)).function(gis.node)
+            except (Unsupported, Raised, AttributeError, TypeError):
+                break
+            runs += 1
+            if got != size:
+                report.add(RULE, '%s@item-size[%s]' % (c.construct, kc.name),
+                           'the vector parameter (%s) counts %s bytes for a %s whose variable parts are %d bytes long, the composer of %s writes %d '
+                           '(%s): the checked size is not the encoded size' % (gis.construct, got, kc.name, length, kc.name, size,
+                                                                              ' '.join(e.sig() for e in cc.elements)))
+                break
+    return runs
+
+
 def size_form(f):
     """classification of the value VectorParam*.get_item_size returns"""
     from ..astutil import returned
@@ -499,6 +611,7 @@ def item_size_agreement(ctx, report, ab, RULE='C12.R7', title='the size counted 
         report.touch(gis)
         report.touch(comp)
         sf = size_form_by_evaluation(ctx, gis) or size_form(gis)
+        kinds_sized_apart(ctx, report, RULE, c, prm, gis)
         ef = emit_form_ir(ctx, c, prm)
         if ef is None:
             ef = emit_form(comp)        # layout not derivable: classify the composer by its own statements
